@@ -6,7 +6,7 @@ CONSTANTS
   PNorm <- TokLP
   PLit <- LitLPt
   PMacro <- MacLPt
-  PLen = 4
+  PLen = 3
   SAlpha <- StrLP
   SLen = 4
   CfgSel = "lp"
